@@ -11,6 +11,12 @@ PROB_GRID = ["0.0", "0.1", "0.2", "0.25", "0.3", "0.4", "0.5", "0.6", "0.7", "0.
 TENTHS = ["0.0", "0.1", "0.2", "0.3", "0.4", "0.5", "0.6", "0.7", "0.8", "0.9", "1.0"]
 
 
+def render_atom_(a):
+    if not a[1]:
+        return a[0]
+    return "%s(%s)" % (a[0], ",".join(str(t[1]) for t in a[1]))
+
+
 def _const(draw, consts):
     return ["a", draw(st.sampled_from(consts))]
 
@@ -19,7 +25,7 @@ def _const(draw, consts):
 def programs(draw, max_preds=5, allow_evidence=True, allow_neg=True, allow_rec=True, allow_ads=True,
              allow_nonground_query=True, allow_neg_query=True, min_queries=1, allow_negcycle=False,
              max_clauses=3, allow_shuffle=True, max_consts=3, prob_grid=None, neg_bias=False, allow_body_or=True,
-             share_bias=False):
+             share_bias=False, evidence_bias=False, error_clauses=False):
     grid = prob_grid or PROB_GRID
     nconst = draw(st.integers(1, max_consts))
     consts = CONSTS[:nconst]
@@ -158,10 +164,55 @@ def programs(draw, max_preds=5, allow_evidence=True, allow_neg=True, allow_rec=T
             qs.append(["query", ground_atom(p), neg])
     es = []
     if allow_evidence:
-        ne = draw(st.sampled_from([0, 0, 1, 1, 2]))
+        ne = draw(st.sampled_from([2, 2, 3] if evidence_bias else [0, 0, 1, 1, 2]))
+        derived_preds = [q for q in preds if any(
+            (s_[0] == "rule" and s_[1][0] == q["name"]) or (s_[0] == "rule_or" and s_[1][0] == q["name"]) or
+            (s_[0] == "ad" and s_[2] and any(a[0] == q["name"] for _, a in s_[1])) for s_ in prog)]
         for _ in range(ne):
-            p = draw(st.sampled_from(preds))
+            if evidence_bias and derived_preds and draw(st.integers(0, 2)) != 0:
+                p = draw(st.sampled_from(derived_preds))  # evidence on derived atoms (disjunction / conjunction nodes)
+            else:
+                p = draw(st.sampled_from(preds))
             es.append(["evidence", ground_atom(p), draw(st.booleans()), draw(st.integers(0, 1))])
+        conj_rules = [s_ for s_ in prog if s_[0] == "rule" and len(s_[2]) >= 2]
+        if evidence_bias and conj_rules and draw(st.booleans()):
+            # evidence aimed at one ground instance of a conjunctive clause: on its head, on one conjunct, and a
+            # query on another conjunct (what evidence propagation infers for the remaining conjuncts)
+            r = draw(st.sampled_from(conj_rules))
+            theta = {}
+
+            def inst(atom):
+                out = []
+                for t in atom[1]:
+                    if t[0] == "v":
+                        if t[1] not in theta:
+                            theta[t[1]] = _const(draw, consts)
+                        out.append(theta[t[1]])
+                    else:
+                        out.append(t)
+                return [atom[0], out]
+
+            i = draw(st.integers(0, len(r[2]) - 1))
+            j = draw(st.sampled_from([k for k in range(len(r[2])) if k != i]))
+            es.append(["evidence", inst(r[1]), draw(st.sampled_from([False, False, True])), draw(st.integers(0, 1))])
+            es.append(["evidence", inst([r[2][i][1], r[2][i][2]]), draw(st.booleans()), draw(st.integers(0, 1))])
+            qs.append(["query", inst([r[2][j][1], r[2][j][2]]), False])
+    if error_clauses:
+        # clauses whose grounding raises a user error (ill-typed arithmetic, undefined predicate, non-ground
+        # probabilistic fact); whether they are reached must not depend on clause / exploration order
+        # (one kind of error per program: with two different errors the one that is reported is the one met first)
+        kind = draw(st.sampled_from(["arith", "undefined", "nonground"]))
+        for _ in range(draw(st.integers(1, 2))):
+            p = draw(st.sampled_from(preds))
+            head = render_atom_(ground_atom(p))
+            if kind == "arith":
+                txt = "%s :- X is foo+1, X > 0." % head
+            elif kind == "undefined":
+                txt = "%s :- undefined_predicate_xyz(1)." % head
+            else:
+                txt = "0.5::ngp_%s(X).\n%s :- ngp_%s(_)." % (p["name"], head, p["name"])
+            pos = draw(st.integers(0, len(prog)))
+            prog = prog[:pos] + [["raw", txt]] + prog[pos:]
     tail = qs + es
     if allow_shuffle and draw(st.booleans()):
         tail = list(draw(st.permutations(tail)))
